@@ -69,6 +69,12 @@ class Check(object):
                 '(anchor moved or rule no longer matches the code)'
                 % (rule, count, what, minimum))
 
+    def has_new_findings(self):
+        known = load_known()
+        ids = set(k['id'] for k in known.get('known', [])
+                  if k.get('property') == self.pid)
+        return any(f['id'] not in ids for f in self.findings)
+
     def info(self, text):
         self.infos.append(text)
 
